@@ -3,7 +3,9 @@
 package dicescript
 
 import (
+	"bufio"
 	"bytes"
+	"io"
 	"errors"
 	"fmt"
 	"math"
@@ -64,6 +66,8 @@ var vSmokeStd = []func() string{
 	func() string { type pair struct{ k string; v int }; ps := []pair{{"b", 2}, {"a", 2}, {"c", 1}}; sort.Slice(ps, func(i, j int) bool { if ps[i].v != ps[j].v { return ps[i].v < ps[j].v }; return ps[i].k < ps[j].k }); return fmt.Sprintf("%v %+v", ps, ps[0]) },
 	func() string { return strings.Join(strings.Split("a,b,,c", ","), "|") + strings.TrimSpace("\t x \n") + strings.TrimPrefix("prefix-x", "prefix-") + fmt.Sprint(strings.SplitAfter("a,b", ","), strings.FieldsFunc("a1b2c", unicode.IsDigit), strings.LastIndexByte("abca", 'a'), strings.ToTitle("x")) },
 	func() string { var sb strings.Builder; for i := 0; i < 3; i++ { if i > 0 { sb.WriteString(", ") }; sb.WriteString(strconv.Itoa(i * 11)) }; w := &sb; fmt.Fprint(w, " end ", 5, 6); fmt.Fprintln(w, "x", 7); return sb.String() },
+	func() string { sc := bufio.NewScanner(strings.NewReader("l1\nl2\r\n\nend")); out := ""; for sc.Scan() { out += "[" + sc.Text() + "]" }; sc2 := bufio.NewScanner(bytes.NewReader([]byte("a b  c"))); sc2.Split(bufio.ScanWords); n := 0; for sc2.Scan() { n++ }; return out + fmt.Sprint(n, sc.Err()) },
+	func() string { r := bufio.NewReader(strings.NewReader("x,y\nz")); s, err := r.ReadString(','); l, _, err2 := r.ReadLine(); rest, _ := io.ReadAll(r); var w bytes.Buffer; bw := bufio.NewWriter(&w); bw.WriteString("q"); bw.Flush(); sr := strings.NewReader("abc"); b := make([]byte, 2); k, _ := sr.Read(b); return fmt.Sprint(s, err, string(l), err2, string(rest), w.String(), k, string(b), sr.Len()) },
 }
 
 //vh:prop=SMOKE tiers=std samples=40 sigkeys=k bounds="standard-library calls a refactoring of the code under test might introduce: each must run in the engine and agree with the native build"
